@@ -36,6 +36,8 @@ CLAIMS["C03"] = ("Type tables agree per parser (routing = payload consumption = 
 
 CLAIMS["C04"] = ("In sendRdb every replay goroutine and panic callback reports exactly one result on every path, the collector receives cap(results) values and the completion record is dominated by 'no error' and by a live-context test after collection (or all producers fail on cancel); every error edge of the snapshot parser sends an error entry and completion is announced only after the footer check; every consumer tests the entry's error before use; Footer returns nil only after reading the stored checksum and finding it zero or equal (all paths); explicit decoder panics reach goroutine roots only through a reporting recover frame (call graph); pumps return nil only for a fully delivered snapshot; all stages watch the context.", "3/C04")
 
+CLAIMS["C16"] = ("Leader: data is sent only under 'follower id = current id' and 'offset the follower sent is not beyond the leader's newest'; the ahead branch sends HANDOVER and returns the hand-over error; the requested offset is replaced only when invalid; CONTINUE frames carry running offset + n. Follower: writers start at the META frame's offset/size; on every path the snapshot writer follows DelRunId ≺ SetRunId and the log writer follows a DelRunId unless the leader's data joins the follower's; every refusal code is a non-nil error on every path of the response handler; every refusal on the leader ends the exchange.", "3/C16")
+
 NOT_YET = "check not built yet in this revision (planned, see DESIGN.md section 3)"
 
 def main():
